@@ -1,4 +1,5 @@
 import Resolvo.Oracles
+import Resolvo.MDet.Undo
 /-!
 # C05 — solutions contain no extraneous solvables
 
@@ -54,5 +55,15 @@ theorem supportedB_sound (U : Universe) (P : Problem) (sel : List Nat) (h : supp
   intro s hs
   unfold supportedB at h
   exact closure_sound U P sel s (List.contains_iff_mem.mp (List.all_eq_true.mp h s hs))
+
+/-- **`undo_until(level)` drops every assignment above the backjump level** (exact model of
+    `decision_tracker.rs:66-91`, every solver state and level, no bound on the stack): when it returns, the decision stack
+    is a suffix of the old one — the newest entries are gone, nothing else changed place — and it is empty or its newest
+    entry was assigned at a level ≤ `level`; so no decision of an abandoned branch survives a backjump on top of the trail. -/
+theorem undo_until_drops_above_level (level : Nat) (s s' : MDet.S)
+    (h : MDet.runM (MDet.undoUntil level) s = (.ok (), s')) :
+    (∃ pre, s.stack = pre ++ s'.stack) ∧
+    (match s'.stack with | [] => True | d :: _ => MDet.levelOf s' d.var ≤ level) :=
+  MDet.undoUntil_post level s s' h
 
 end Resolvo.C05
